@@ -6,6 +6,15 @@
 // tokio::time::sleep / tokio::process::Command are small stubs with a ghost clock and a ghost record of every process
 // that was started.  The harness plays a history of two authentication attempts with time passing in between.
 #![allow(dead_code, unused_variables, unused_macros, static_mut_refs, unused_imports, unused_mut)]
+// `tracing::level!(..)` written with its path by an edit keeps compiling (log statements have no effect on the checks)
+pub mod tracing {
+    macro_rules! trace { ($($t:tt)*) => { () } }
+    macro_rules! debug { ($($t:tt)*) => { () } }
+    macro_rules! info { ($($t:tt)*) => { () } }
+    macro_rules! warn_ { ($($t:tt)*) => { () } }
+    macro_rules! error { ($($t:tt)*) => { () } }
+    pub(crate) use {trace, debug, info, warn_ as warn, error};
+}
 use std::future::{ready, Future, Ready};
 use std::pin::Pin;
 use std::task::{Context as TaskCx, Poll};
